@@ -145,6 +145,10 @@ def classify_c12(case, detail):
     D59: isar text naming an enumerator of an xi:include'd file (the Python output does not import it)"""
     if case.get('rule') == 'identifier reserved in a target language':
         return 'D40'
+    if case.get('rule') in ('schema without definitions', 'array extent no C++ object can have') and 'python' not in detail.get('backends', {}):
+        return 'D118'
+    if case.get('rule') == 'python only: isar member of an unknown type' and 'NameError' in detail.get('backends', {}).get('python', ''):
+        return 'D116'
     if case.get('rule') == 'patch: remove leaving a struct without members' and set(detail.get('backends', {})) == {'cpp_full'}:
         return 'D56'
     if case.get('rule') == 'isar: enumerator of an included file used by name' and set(detail.get('backends', {})) == {'python'} \
@@ -224,6 +228,66 @@ DIRECTED = [
      'a.prophy', 'usable'),
     ('patch: remove leaving a struct without members', ['--patch', 'a.patch'],
      {'a.prophy': 'struct S { u8 a; };\nstruct T { S s; u8 t; };\n', 'a.patch': 'S remove a\n'}, 'a.prophy', 'usable'),
+    ('enumerator named like its own enum', None, {'a.prophy': 'enum A { A = 1 };\nstruct S { A a; };\n'}, 'a.prophy', 'reject'),
+    ('name of a transitively included file defined again', None,
+     {'c.prophy': 'struct X { u8 a; };\nconst K = 5;\n', 'b.prophy': '#include "c.prophy"\nstruct B { X x; };\n',
+      'a.prophy': '#include "b.prophy"\nstruct X { u16 a; };\nstruct A { B b; X x; };\n'}, 'a.prophy', 'reject'),
+    ('names of a transitively included file are visible', None,
+     {'c.prophy': 'struct C { u8 a; };\nconst K = 5;\nenum EC { EC_A = 2 };\n', 'b.prophy': '#include "c.prophy"\nstruct B { C c; };\n',
+      'a.prophy': '#include "b.prophy"\nstruct A { B b; C c[K]; u8 x[EC_A]; EC e; };\n'}, 'a.prophy', 'usable'),
+    ('isar: one struct name twice', '--isar',
+     {'a.xml': ISAR % '<struct name="S"><member name="a" type="u8"/></struct><struct name="S"><member name="b" type="u16"/></struct><struct name="H"><member name="s" type="S"/></struct>'},
+     'a.xml', 'reject'),
+    ('isar: a constant and a struct of one name', '--isar',
+     {'a.xml': ISAR % '<constant name="S" value="3"/><struct name="S"><member name="a" type="u8"/></struct>'}, 'a.xml', 'reject'),
+    ('isar: one enumerator name in two enums', '--isar',
+     {'a.xml': ISAR % '<enum name="E"><enum-member name="A" value="1"/></enum><enum name="F"><enum-member name="A" value="2"/></enum>'}, 'a.xml', 'reject'),
+    ('isar: one constant defined differently by two included files', '--isar',
+     {'p.xml': ISAR % '<constant name="K" value="1"/>', 'q.xml': ISAR % '<constant name="K" value="2"/>',
+      'a.xml': ISAR % '<xi:include href="p.xml"/><xi:include href="q.xml"/><struct name="A"><member name="x" type="u8"><dimension size="K"/></member></struct>'},
+     'a.xml', 'reject'),
+    ('patch: rename onto an existing definition', ['--patch', 'a.patch'],
+     {'a.prophy': 'struct S { u8 a; };\nstruct T { u16 b; };\nstruct H { S s; T t; };\n', 'a.patch': 'T rename S\n'}, 'a.prophy', 'reject'),
+    ('patch: rename making two members of one name', ['--patch', 'a.patch'],
+     {'a.prophy': 'struct S { u8 a; u32 b; };\n', 'a.patch': 'S rename b a\n'}, 'a.prophy', 'reject'),
+    ('patch: insert making two members of one name', ['--patch', 'a.patch'],
+     {'a.prophy': 'struct S { u8 a; u32 b; };\n', 'a.patch': 'S insert 0 b u16\n'}, 'a.prophy', 'reject'),
+    ('patch: rule named like an included file', ['--patch', 'a.patch'],
+     {'Foo.prophy': 'struct Foo { u32 n; u8 x[3]; };\n', 'a.prophy': '#include "Foo.prophy"\nstruct A { Foo f; };\n', 'a.patch': 'Zoo rename Zar\n'},
+     'a.prophy', 'usable'),
+    ('isar: discriminators equal through an enumerator', '--isar',
+     {'a.xml': ISAR % ('<enum name="E"><enum-member name="E_A" value="1"/></enum><union name="U"><member name="a" type="u8" discriminatorValue="E_A"/>'
+                       '<member name="b" type="u16" discriminatorValue="1"/></union>')}, 'a.xml', 'reject'),
+    ('isar: discriminators 1 and 0x1', '--isar',
+     {'a.xml': ISAR % '<union name="U"><member name="a" type="u8" discriminatorValue="1"/><member name="b" type="u16" discriminatorValue="0x1"/></union>'},
+     'a.xml', 'reject'),
+    ('isar: name that is not an identifier', '--isar',
+     {'a.xml': ISAR % '<struct name="a-b"><member name="x y" type="u8"/></struct>'}, 'a.xml', 'reject'),
+    ('isar: enumerator below -2^31', '--isar',
+     {'a.xml': ISAR % '<enum name="E"><enum-member name="E_A" value="-4294967295"/></enum>'}, 'a.xml', 'reject'),
+    ('isar: negative enumerator within 32 bits', '--isar',
+     {'a.xml': ISAR % '<enum name="E"><enum-member name="E_A" value="-1"/><enum-member name="E_B" value="-2147483648"/></enum><struct name="S"><member name="e" type="E"/></struct>'},
+     'a.xml', 'usable'),
+    ('isar: enumerators equal by value, spelled differently', '--isar',
+     {'a.xml': ISAR % ('<constant name="K" value="2"/><enum name="E"><enum-member name="E_A" value="1"/><enum-member name="E_B" value="0x1"/>'
+                       '<enum-member name="E_C" value="K"/><enum-member name="E_D" value="2"/><enum-member name="E_L" value="E_A"/></enum>'
+                       '<struct name="S"><member name="e" type="E"/></struct>')}, 'a.xml', 'usable'),
+    ('isar: comment with a backslash and a quote', '--isar',
+     {'a.xml': ISAR % '<constant name="K" value="3" comment="see C:\\users\\doc and the user\'"/><struct name="S"><member name="a" type="u8"><dimension size="K"/></member></struct>'},
+     'a.xml', 'usable'),
+    ('isar: isVariableSize="false"', '--isar',
+     {'a.xml': ISAR % '<struct name="S"><member name="a" type="u8"><dimension size="3" isVariableSize="false"/></member></struct>'}, 'a.xml', 'usable'),
+    ('isar: shiftLeft in a size and a discriminator', '--isar',
+     {'a.xml': ISAR % ('<struct name="S"><member name="a" type="u8"><dimension size="shiftLeft(1,2)"/></member></struct>'
+                       '<union name="U"><member name="a" type="u8" discriminatorValue="bitMaskOr(1,2)"/></union>')}, 'a.xml', 'usable'),
+    ('included file whose name is not a module name', None,
+     {'my-a.prophy': 'struct A { u8 x; };\n', 'a.prophy': '#include "my-a.prophy"\nstruct C { A a; };\n'}, 'a.prophy', 'reject'),
+    ('isar: literal with white space', '--isar', {'a.xml': ISAR % '<constant name="K" value="5 "/><struct name="S"><member name="a" type="u8"><dimension size="K"/></member></struct>'},
+     'a.xml', 'usable'),
+    ('schema without definitions', None, {'a.prophy': '\n'}, 'a.prophy', 'usable'),
+    ('array extent no C++ object can have', None, {'a.prophy': 'struct X { u8 a[1 << 63]; };\n'}, 'a.prophy', 'usable'),
+    ('isar: member of an unknown type', '--isar', {'a.xml': ISAR % '<struct name="S"><member name="a" type="Nope"/></struct>'}, 'a.xml', 'reject'),
+    ('python only: isar member of an unknown type', '--isar', {'a.xml': ISAR % '<struct name="S"><member name="a" type="Nope"/></struct>'}, 'a.xml', 'usable'),
     ('isar: typedef and union arm of type byte', '--isar',
      {'a.xml': ISAR % ('<typedef name="TB" type="byte"/><union name="U"><member name="d" type="byte" discriminatorValue="1"/>'
                        '<member name="e" type="TB" discriminatorValue="2"/></union><struct name="S"><member name="b" type="TB"/><member name="u" type="U"/></struct>')},
@@ -243,12 +307,26 @@ DIRECTED = [
 ]
 
 
+RUNTIME_ILLEGAL = [
+    ('duplicate field names', ('struct', [('S', [('a', 'prophy.u8'), ('a', 'prophy.u16')])])),
+    ('duplicate arm names', ('union', [('a', 'prophy.u8', 1), ('a', 'prophy.u16', 2)])),
+    ('duplicate discriminators', ('union', [('a', 'prophy.u8', 1), ('b', 'prophy.u16', 1)])),
+    ('discriminator above 32 bits', ('union', [('a', 'prophy.u8', 2 ** 32)])),
+    ('negative discriminator', ('union', [('a', 'prophy.u8', -1)])),
+    ('negative array size', ('struct', [('S', [('a', 'prophy.array(prophy.u8, size=-3)')])])),
+    ('negative bytes size', ('struct', [('S', [('a', 'prophy.bytes(size=-3)')])])),
+    ('negative shift', ('struct', [('S', [('n', 'prophy.u8'), ('a', 'prophy.array(prophy.u8, bound="n", shift=-1)')])])),
+    ('optional of optional', ('struct', [('S', [('o', 'prophy.optional(prophy.optional(prophy.u8))')])])),
+]
+
+
 def directed_case(root, k, opt, files, main):
     """(outcome, message, unusable back-ends) of one directed multi-file / isar case"""
     import prophyc
     from harness.checks import files as F
     d = os.path.join(root, 'd%d' % k)
     os.makedirs(d)
+    python_only = bool(files.pop('__python_only__', None))
     for name, text in files.items():
         with open(os.path.join(d, name), 'w') as f:
             f.write(text)
@@ -256,7 +334,7 @@ def directed_case(root, k, opt, files, main):
     os.makedirs(out)
     if isinstance(opt, list):
         opt = [opt[0], os.path.join(d, opt[1])]
-    args = (opt if isinstance(opt, list) else [opt] if opt else []) + ['-I', d, '--python_out', out, '--cpp_full_out', out, '--cpp_out', out]
+    args = (opt if isinstance(opt, list) else [opt] if opt else []) + ['-I', d, '--python_out', out] + ([] if python_only else ['--cpp_full_out', out, '--cpp_out', out])
     sources = [n for n in files if not n.endswith('.patch')]
     leaves = [os.path.splitext(n)[0] for n in sources]
     try:
@@ -272,7 +350,7 @@ def directed_case(root, k, opt, files, main):
     except Exception as e:  # noqa
         bad['python'] = '%s: %s' % (type(e).__name__, str(e)[:200])
     base = os.path.splitext(main)[0]
-    for key, src in (('cpp_full', base + '.ppf.cpp'), ('cpp_raw', base + '.pp.cpp')):
+    for key, src in (() if python_only else (('cpp_full', base + '.ppf.cpp'), ('cpp_raw', base + '.pp.cpp'))):
         p = subprocess.run(['g++', '-std=c++11', '-fsyntax-only', '-I' + os.path.join(REPO, 'prophy_cpp', 'include'), '-I' + out, os.path.join(out, src)],
                            stdout=subprocess.PIPE, stderr=subprocess.STDOUT, timeout=300)
         if p.returncode != 0:
@@ -356,7 +434,7 @@ def run_c12(tier):
                     chk.property_violation(rcase, {'what': 'prophyc succeeded but a generated artifact is unusable', 'backends': {k: v[:150] for k, v in bad.items()}}, classify_c12)
         # directed multi-file and isar schemas (defects D56..: built-in names, redefinition through includes, isar ranges)
         for k, (rule, opt, files, main, expected) in enumerate(DIRECTED):
-            outcome, msg, bad = directed_case(root, k, opt, files, main)
+            outcome, msg, bad = directed_case(root, k, opt, dict(files, **({'__python_only__': '1'} if rule.startswith('python only:') else {})), main)
             dcase = {'files': files, 'main': main, 'option': opt, 'rule': rule}
             chk.count((rule,), True)
             chk.bump('directed:' + expected)
@@ -368,6 +446,23 @@ def run_c12(tier):
                 chk.property_violation(dcase, {'what': "a valid schema was rejected ('%s'): %s" % (rule, msg[:300])})
             elif bad:
                 chk.property_violation(dcase, {'what': 'prophyc succeeded but a generated artifact is unusable', 'backends': bad}, classify_c12)
+        # the runtime refuses in hand-written descriptors what prophyc refuses in schemas ("never disagree on legality": D83)
+        import prophy
+        from harness.checks.pycodec import handwritten
+        for rule, desc in RUNTIME_ILLEGAL:
+            chk.count(('runtime', rule), True)
+            chk.bump('directed:runtime-illegal')
+            try:
+                if desc[0] == 'union':
+                    base = prophy.with_metaclass(prophy.union_generator, prophy.union)
+                    type(base)('U', (base,), {'_descriptor': [(n, eval(t, {'prophy': prophy}), dv) for n, t, dv in desc[1]]})    # noqa: S307
+                else:
+                    handwritten(desc[1])
+                chk.property_violation({'rule': rule, 'descriptor': repr(desc)}, {'what': "the Python runtime accepted a descriptor that breaks '%s'" % rule})
+            except prophy.ProphyError:
+                pass
+            except Exception as ex:  # noqa
+                chk.property_violation({'rule': rule, 'descriptor': repr(desc)}, {'what': '%s instead of ProphyError: %s' % (type(ex).__name__, str(ex)[:200])})
         flat = [r for group in reqs for r in group]
         ans = client.batch(flat)
         k = 0
